@@ -1596,7 +1596,10 @@ fn garbage_case(seed: u64, lane: Lane, trace: bool) -> CaseOut {
     // destination, from the genuine or a foreign source) and pure noise
     let mut injected = 0u64;
     let mut steps = 0u64;
-    let inject_budget = 200 + r.below(4000);
+    let mut inject_budget = 200 + r.below(4000);
+    if std::env::var("QV_NO_GARBAGE").is_ok() {
+        inject_budget = 0; // debugging aid: the same world without the hostile datagrams
+    }
     let live0 = crate::alloc::live();
     let end = loop {
         if steps > 3 && genuine_done(&w) {
@@ -1647,7 +1650,7 @@ fn garbage_case(seed: u64, lane: Lane, trace: bool) -> CaseOut {
         // resources (Incoming buffers), but honest traffic must still get through
         let conns: Vec<String> = w.eps.iter().enumerate().flat_map(|(ei, e)| e.conns.iter().map(move |(h, c)| format!("{ei}/{h} {:?} pair={} connected={} jobs_done={} lost={:?} state={}", c.side, c.pair, c.app.connected, c.app.jobs_done(), c.app.lost, c.c.verif_probe().state))).collect();
         let flows: Vec<String> = w.led.flows.iter().filter(|(_, f)| f.must_complete() && !f.complete()).map(|(k, f)| format!("{k:?} written={} fin={:?} delivered={} eos={} finished_evt={}", f.written, f.fin_at, f.delivered.total(), f.eos, f.finished_evt)).collect();
-        viol.push(format!("honest transfers did not complete while {injected} garbage datagrams were injected ({end}, {steps} steps); connections {conns:?}; incomplete flows {flows:?}; timers {:?}", timers_desc(&w)));
+        viol.push(format!("honest transfers did not complete while {injected} garbage datagrams were injected ({end}, {steps} steps); connections {conns:?}; incomplete flows {flows:?}; timers {:?};{}", timers_desc(&w), super::c02::diag(&w)));
     }
     for e in &w.eps {
         for c in e.conns.values() {
